@@ -1,4 +1,5 @@
 import KV.Props.C12
+import KV.Hygiene
 /-! # C04 — successful generation always yields compilable, hygienic Go
 
 Property statements only.  "Compiles" is a verdict of the Go type checker, which Lean does not contain; what
@@ -7,7 +8,13 @@ fresh with respect to reserved words, predeclared identifiers, package-level nam
 name — for any number of injectors and files of one invocation, since they share one pool), and the reserved
 lists being complete.  The remaining clauses are tied by the end-to-end correspondence: every sampled output is
 type-checked by the real compiler together with the user's package (see DESIGN.md §4 C04 for the known
-findings: hard-coded locals `eg ctx ch zero err errgroup`, type-expression rendering). -/
+findings: hard-coded locals `eg ctx ch zero err errgroup`, type-expression rendering).
+
+The second half (`C04_declared_vars_used` … `C04_no_blank_call`, proofs in `KV/Hygiene.lean`) is the structural part of
+"the emitted function compiles": Go rejects a local that is *declared and not used*, and the generator declares
+`var x T` for every result parameter not written `_` (model: `refs ≠ 0`) and `xCh := make(chan struct{})` for every
+parameter with `withChan`.  For every accepted declaration (`plan provs ret = .ok p`, unbounded size) the two
+counters set in the second pass of `Build` agree exactly with the ops of the emitted program `emitted p`. -/
 namespace C04
 open VP
 
@@ -30,5 +37,76 @@ theorem C04_reserved_complete :
 theorem C04_emitter_locals_reserved :
     ["eg", "ch", "zero"].all (fun k => Gen.generatorLocals.contains k) = true ∧
     Gen.generatorLocals.all (fun k => decide (0 < count seedPool k)) = true := by decide
+
+/-! ## structural hygiene of the emitted function: declared ⇒ used -/
+section Hygiene
+open KV
+
+/-- **Every declared variable is used, and only used variables are declared.**  A parameter is given a name
+    (`refs ≠ 0`; with `refs = 0` the emitter writes `_` and declares nothing) iff some emitted call takes it as an
+    argument or it is the operand of the final `return`.  So no `var x T` / `x := f()` of the emitted Go is
+    "declared and not used", and nothing that is read was written `_`. -/
+theorem C04_declared_vars_used {provs : List PSpec} {ret : Nat} {p : PlanOut} (h : plan provs ret = .ok p) (v : Nat) :
+    (p.b.params.getD v default).refs ≠ 0 ↔
+      ((∃ t o args, T1.Op.enter o args ∈ T1.thread (emitted p) t ∧ v ∈ args) ∨
+        T1.Op.ret v ∈ T1.thread (emitted p) 0) :=
+  refs_ne_zero_iff h v
+
+/-- **`refs` counts the readers exactly**: the number of (consumer call, argument slot) pairs the graph wires to the
+    variable (`wiredTo`: one graph edge each), plus one for the `return`. -/
+theorem C04_refs_count {provs : List PSpec} {ret : Nat} {p : PlanOut} (h : plan provs ret = .ok p) {v : Nat}
+    (hv : v < p.b.params.length) :
+    (p.b.params.getD v default).refs = (if v = p.b.retParam then 1 else 0) + (wiredTo p v).length :=
+  refs_eq_count h hv
+
+/-- **Every declared channel is used on both sides, and only then declared.**  `withChan c` (the emitter declares
+    `cCh := make(chan struct{})`) iff some emitted statement receives from it (`wait _ c`), iff some emitted
+    statement closes it; it is closed by one op only, and every receiver runs in a different thread (goroutine)
+    than the closer: `withChan` is exactly "a consumer in another thread waits". -/
+theorem C04_channel_iff_waited {provs : List PSpec} {ret : Nat} {p : PlanOut} (h : plan provs ret = .ok p) (c : Nat) :
+    ((p.b.params.getD c default).withChan = true ↔ ∃ t o, T1.Op.wait o c ∈ T1.thread (emitted p) t) ∧
+    ((p.b.params.getD c default).withChan = true ↔ ∃ t o, T1.Op.close o c ∈ T1.thread (emitted p) t) ∧
+    (∀ t o t' o', T1.Op.close o c ∈ T1.thread (emitted p) t → T1.Op.close o' c ∈ T1.thread (emitted p) t' →
+      t = t' ∧ o = o') ∧
+    (∀ t o t' o', T1.Op.wait o c ∈ T1.thread (emitted p) t → T1.Op.close o' c ∈ T1.thread (emitted p) t' →
+      t ≠ t') :=
+  ⟨withChan_iff_wait h c, withChan_iff_close h c,
+   fun t o t' o' h1 h2 => (plan_wf h).2.closeUnique c t o t' o' h1 h2,
+   fun _ _ _ _ hw hc => wait_other_thread h hw hc⟩
+
+/-- **Injector arguments are plain function parameters**: the parameters flagged `isArg` are exactly those of the
+    injector's signature (`p.b.args`), they never get a completion channel, no emitted call assigns them, and no
+    emitted statement receives from or closes a channel of theirs. -/
+theorem C04_args_plain {provs : List PSpec} {ret : Nat} {p : PlanOut} (h : plan provs ret = .ok p) (v : Nat) :
+    (v ∈ p.b.args ↔ (v < p.b.params.length ∧ (p.b.params.getD v default).isArg = true)) ∧
+    ((p.b.params.getD v default).isArg = true →
+      (p.b.params.getD v default).withChan = false ∧
+      (∀ t o rets, T1.Op.exit o rets ∈ T1.thread (emitted p) t → v ∉ rets) ∧
+      (∀ t o, T1.Op.wait o v ∉ T1.thread (emitted p) t) ∧
+      (∀ t o, T1.Op.close o v ∉ T1.thread (emitted p) t)) :=
+  ⟨isArg_iff_mem_args h v, fun hv => arg_plain h hv⟩
+
+/-- **Every argument of an emitted call is a declared thing**: an allocated parameter that has a name
+    (`refs ≠ 0`, so no call reads `_`), and if it is flagged `isArg` it is one of the injector's own parameters. -/
+theorem C04_call_args_declared {provs : List PSpec} {ret : Nat} {p : PlanOut} (h : plan provs ret = .ok p)
+    {t o v : Nat} {args : List Nat} (hen : T1.Op.enter o args ∈ T1.thread (emitted p) t) (hv : v ∈ args) :
+    v < p.b.params.length ∧ (p.b.params.getD v default).refs ≠ 0 ∧
+      ((p.b.params.getD v default).isArg = true → v ∈ p.b.args) :=
+  let ⟨h1, h2⟩ := call_args_declared h hen hv
+  ⟨h1, h2, fun ha => (isArg_iff_mem_args h v).mpr ⟨h1, ha⟩⟩
+
+/-- **No emitted call discards all of its results**: some result of every emitted call has a name, so the emitter
+    never writes `_, _ := f()` ("no new variables on left side of :="). -/
+theorem C04_no_blank_call {provs : List PSpec} {ret : Nat} {p : PlanOut} (h : plan provs ret = .ok p)
+    {t o : Nat} {rets : List Nat} (hex : T1.Op.exit o rets ∈ T1.thread (emitted p) t) :
+    ∃ v ∈ rets, (p.b.params.getD v default).refs ≠ 0 :=
+  exit_some_used h hex
+
+/-- non-vacuity: a declaration whose second result is never read (`refs = 0`, written `_`) … -/
+example : paramFlags twoResults 1 = some [(true, 1, false), (false, 1, false), (false, 0, false)] := by decide
+/-- … and one with two completion channels (`diamondA`, two threads) -/
+example : (paramFlags diamondA 1).map (·.map (·.2.2)) = some [false, true, true, false, false] := by decide
+
+end Hygiene
 
 end C04
